@@ -29,7 +29,7 @@ COMPONENTS = {"real": ["ECAgent.Environments.SpaceWorld.add_agent / remove_agent
                        "GridWorld constructors", "PositionComponent"],
               "stub": ["agents are plain ECAgent agents created by the harness"]}
 PROBES = ["multi_lap_wrap", "negative_wrap", "clamp_both_sides_one_move", "placement_on_hi", "zero_extent_axis",
-          "reject.oob", "reject.move_to_oob", "reject.no_position", "move_to_accepted", "continuous_world", "grid_world", "model_lifecycle_op", "wrap_mode_switched", "defaults_used_for_omitted_coordinates", "huge_integer_move_in_grid",
+          "reject.oob", "reject.move_to_oob", "reject.no_position", "move_to_accepted", "continuous_world", "grid_world", "model_lifecycle_op", "wrap_mode_switched", "defaults_used_for_omitted_coordinates", "huge_integer_move_in_grid", "integer_move_beyond_the_decimal_conversion_limit",
           "agent_with_position_subclass_component", "agent_is_an_environment", "ops_from_inside_a_timestep", "deprecated_camelcase_spelling",
           "one_ulp_outside_a_continuous_world", "history_continued_on_a_copy"]
 TECHNIQUE = "deterministic simulation: seeded placement/move histories with injected rejected operations vs an exact (dyadic) arithmetic reference, containment invariant after every op"
@@ -87,6 +87,14 @@ def generate(rng, tier):
                 d = [0, 0, 0]
                 d[ax] = sign * big
                 ops.insert(at + j, {"op": "move", "k": k, "d": d, "sparse": rng.random() < 0.3, "huge": True})
+        if rng.random() < 0.3:
+            # an integer too long to be written out in decimal (CPython refuses str() beyond 4300 digits): still a finite
+            # integer, still exact. It travels in the scenario as base ** exp + add.
+            d = [0, 0, 0]
+            d[rng.randrange(3)] = {"sign": rng.choice([1, -1]), "base": rng.choice([10, 10, 7]), "exp": rng.choice([4400, 5000, 9999]),
+                                   "add": rng.randint(0, 9)}
+            ops.insert(rng.randint(0, len(ops)), {"op": "move", "k": rng.randrange(n), "d": d, "sparse": rng.random() < 0.3,
+                                                  "huge": True, "unprintable": True})
     for o_ in ops:        # the deprecated camelCase spellings (addAgent / removeAgent) are still public API: some calls use them
         if o_.get("op") in ("add", "remove") and rng.random() < 0.08:
             o_["camel"] = True
@@ -208,7 +216,7 @@ def execute(sc, ctx):
                 shape.append(["add", "rej"])
             ctx.event("add", k, p, k in pos)
         elif kind == "move":
-            d = [int(c) for c in op["d"]]
+            d = [int(c) if not isinstance(c, dict) else c["sign"] * (c["base"] ** c["exp"] + c["add"]) for c in op["d"]]
             rd = ref.real(d)
             if k not in pos:
                 before = snapshot()
@@ -221,6 +229,8 @@ def execute(sc, ctx):
                 old = pos[k]
                 if op.get("huge"):
                     ctx.probe("huge_integer_move_in_grid")
+                if op.get("unprintable"):
+                    ctx.probe("integer_move_beyond_the_decimal_conversion_limit")
                 base = [old[ax] if old[ax] is not None else 0 for ax in range(3)]
                 if op.get("sparse"):
                     ctx.probe("defaults_used_for_omitted_coordinates")
@@ -247,7 +257,7 @@ def execute(sc, ctx):
                         ctx.probe("clamp_both_sides_one_move")
                 pos[k] = new
                 shape.append(["move", "wrap" if ref.wrap else "clamp", any(over)])
-            ctx.event("move", k, d)
+            ctx.event("move", k, op["d"])
         elif kind == "move_to":
             p = [int(c) for c in op["p"]]
             rp = ref.real(p)
